@@ -448,7 +448,8 @@ def history_cases(rng, tier):
             shapes.append([n1, n1 + 2 ** k])
             shapes.append([n1 + 2 ** k, n1])
             shapes.append([n1, n1 + 2 ** k, n1])
-    shapes = shapes if tier != "quick" else shapes[:24]
+    # (quick tier: every k — 2^8, 2^9, 2^16 — with two of the four small counts)
+    shapes = shapes if tier != "quick" else [sh for sh in shapes if min(sh) in (1, 3)]
     for counts in shapes:
         recs = [d.join(rng.choice([b"x", b"y", b"xy"]) for _ in range(n)) for n in counts]
         for (l, r) in [(2, 2), (-1, -1), (2, None), (1, 1)]:
